@@ -17,7 +17,7 @@ for name, rows in C05.TABLE.items():
     cfg = reg[name]
     for (lab, kw, N, tol, tiers) in rows:
         worst_settle, worst_tail, fails = 0, 0.0, 0
-        for e0d in [175, 175, 170, 150, 120, 90, 30, 1][:nseeds]:
+        for e0d in ([175, 175, 170, 150, 120, 90, 30, 1]*8)[:nseeds]:
             dipd = float(rng.uniform(-70, 70)); dip = np.radians(dipd)
             inst = cfg.new(**filt.resolve_kw(cfg, dipd, kw)) if cfg.new else None
             g_ref, m_ref = cfg.refs(inst, dip)
